@@ -139,6 +139,13 @@ func c10Case(c *Ctx, id, stack string, items []string) {
 				kind, want, b, l = c10Classify(c, base, layer, p, dur)
 			}
 		}
+		// Chtimes / Chmod / Chown through the cache are accesses too: on an expired copy with a newer
+		// base ("stale") the access refreshes the cache
+		mutKind, mutPath := "", ""
+		if !failed && f[0] == "." && len(f) > 3 && (f[2] == "Chtimes" || f[2] == "Chmod" || f[2] == "Chown") {
+			mutPath = string(unhx(f[3]))
+			mutKind, _, _, _ = c10Classify(c, base, layer, mutPath, dur)
+		}
 		if f[0] == "1" {
 			for _, rd := range reads {
 				rd.skip = true
@@ -154,6 +161,14 @@ func c10Case(c *Ctx, id, stack string, items []string) {
 		}
 		if failed {
 			continue
+		}
+		if mutKind == "stale" && out == "ok" {
+			c.Count("c10.mutator-on-stale")
+			b2, l2 := entOf(base, mutPath), entOf(layer, mutPath)
+			if b2.ok && !b2.dir && (!l2.ok || !bytes.Equal(l2.data, b2.data)) {
+				fail("stale-copy-not-refreshed", "step %d (%s) on an expired copy older than the base: afterwards the base holds %s, the cache layer %s (present=%v)", i, it, short(b2.data), short(l2.data), l2.ok)
+				continue
+			}
 		}
 		if kind != "" {
 			c.Count("c10.kind." + kind)
@@ -496,6 +511,33 @@ func runC10(c *Ctx) {
 			c10Case(c, t[1], t[2], cs[1:len(cs)-1])
 		}
 		return
+	}
+	runOSCacheLayer(c)
+	// modification times far outside the usual range (the zero time.Time of filesystems without
+	// timestamps, the 17th and the 31st century): the copy carries the base's time, whatever it is
+	for xi, stack := range cacheStacks {
+		for ti, t := range []int64{-62135596800, -9000000000, -6795364579, 0} { // year 1, 1684, 1754, 1970
+			items := []string{"0 0 Create 2f66", "0 - HWrite 0 6f6c64", "0 - HClose 0", fmt.Sprintf("0 - Chtimes 2f66 %d", t),
+				". 1 Open 2f66", ". - HRead 1 100", ". - HClose 1", ". - Stat 2f66", "1 - Stat 2f66", "0 - Stat 2f66",
+				". 2 Open 2f66", ". - HRead 2 100", ". - HClose 2", "snap 0", "snap 1"}
+			c10Case(c, fmt.Sprintf("xt%d_%d", xi, ti), stack, items)
+		}
+	}
+	// a name-taking call through the cache as the FIRST access to an expired, outdated copy, then reads:
+	// the call must not leave the old copy looking fresh
+	for xi, stack := range cacheStacks {
+		for ci, call := range []string{"Chtimes 2f66 %d", "Chmod 2f66 384", "Chown 2f66 1 1"} {
+			if strings.Contains(call, "%d") {
+				call = fmt.Sprintf(call, c10T0+5000)
+			}
+			items := []string{"0 0 Create 2f66", "0 - HWrite 0 6f6c64", "0 - HClose 0", fmt.Sprintf("0 - Chtimes 2f66 %d", c10T0),
+				". 1 Open 2f66", ". - HRead 1 100", ". - HClose 1",
+				"0 2 Create 2f66", "0 - HWrite 2 6e65776572", "0 - HClose 2", fmt.Sprintf("0 - Chtimes 2f66 %d", c10T0+1000),
+				". - " + call,
+				". 3 Open 2f66", ". - HRead 3 100", ". - HClose 3", ". - Stat 2f66",
+				". 4 OpenFile 2f66 0 0", ". - HRead 4 100", ". - HClose 4", "snap 0", "snap 1"}
+			c10Case(c, fmt.Sprintf("xc%d_%d", xi, ci), stack, items)
+		}
 	}
 	// the rules on the smallest inputs: one file, a seeded copy older / equal / newer, base then rewritten
 	// with an older / equal / newer stamp or none, read through the cache before and after
